@@ -149,6 +149,15 @@ def run_property(prop, tier, explain=None):
     except Exception as e:   # a crash of the analyzer is an incomplete analysis, never a pass
         ctx.incomplete(prop + '.R0', 'analyzer-crash', '%s: %s' % (type(e).__name__, e))
         traceback.print_exc()
+    if tier == 'thorough' and not explain and not os.environ.get('VERIF_SELFTEST_CHILD') and not os.environ.get('VERIF_NO_SELFTEST'):
+        try:
+            from . import selftest
+            known0 = {k['key'] for k in load_known() if k.get('property') == prop and k.get('status') == 'known'}
+            base = {r.key for r in ctx.results if not r.ok} | known0
+            selftest.run_for(prop, ctx, base)
+        except Exception as e:
+            ctx.incomplete(prop + '.E6', 'self-validation', '%s: %s' % (type(e).__name__, e))
+            traceback.print_exc()
     results = ctx.results
     if explain:
         want = json.load(open(explain)).get('key')
@@ -157,7 +166,8 @@ def run_property(prop, tier, explain=None):
     known_keys = {k['key']: k for k in known}
     viol = [r for r in results if not r.ok]
     new_viol = [r for r in viol if r.key not in known_keys]
-    os.makedirs(os.path.join(V, 'evidence', 'violations'), exist_ok=True)
+    EVD = os.environ.get('VERIF_EVIDENCE_DIR') or os.path.join(V, 'evidence')
+    os.makedirs(os.path.join(EVD, 'violations'), exist_ok=True)
     lines = []
     seen_known = set()
     for r in viol:
@@ -171,7 +181,7 @@ def run_property(prop, tier, explain=None):
             continue
         seen_new.add(r.key)
         h = hashlib.sha1(r.key.encode()).hexdigest()[:10]
-        rp = os.path.join('evidence', 'violations', '%s-%s-%s.json' % (prop, r.rule.replace('.', '_'), h))
+        rp = os.path.join('evidence' if EVD == os.path.join(V, 'evidence') else EVD, 'violations', '%s-%s-%s.json' % (prop, r.rule.replace('.', '_'), h))
         rep = r.to_json()
         rep.update({'property': prop, 'kind': r.kind, 'statement': r.statement or meta['rules'].get(r.rule.split('.')[-1], ''),
                     'text': '%s %s: %s — observed %s; required %s (%s)' % (
@@ -185,7 +195,10 @@ def run_property(prop, tier, explain=None):
     obligations = len(results)
     discharged = len([r for r in results if r.ok])
     nontrivial = len({(r.rule, r.instance) for r in results if r.ok})
-    samples = [r.to_json() for r in results][:60]
+    samples = [r.to_json() for r in results][:80]
+    meta = dict(meta)
+    meta['rules'] = dict(meta['rules'])
+    meta['rules'].setdefault('E6', 'self-validation (thorough tier): each rule fires on a scratch variant of the current tree with one instance broken (hand-written mutants and the seeded changes under seeded/) and every rule stays silent on behaviour-preserving refactorings')
     level = meta['level']
     cov = {
         'evaluations': max(1, ctx.evaluations),
@@ -215,7 +228,7 @@ def run_property(prop, tier, explain=None):
         'violations': len(new_viol),
     }
     if not explain:
-        with open(os.path.join(V, 'evidence', '%s.json' % prop), 'w') as f:
+        with open(os.path.join(EVD, '%s.json' % prop), 'w') as f:
             json.dump(ev, f, indent=1)
     print('%s tier=%s configs=%s rule-instances=%d holds=%d violations=%d known=%d wall=%.1fs' % (
         prop, tier, ','.join(ctx.configs_used), obligations, discharged, len(new_viol), len(seen_known), time.time() - ctx.t0))
